@@ -19,11 +19,19 @@ from props import C16
 RULE = ("estimators created with an explicit Config over seeded definitions (0-2 controls, 1-2 sensors): get->set, sklearn clone, every "
         "Config field with several values, unknown keys, flatten / inverse-flatten of the noise magnitudes (including negative and tiny "
         "entries), and fit on seeded finite matrices with the outcome classified {returned, MinimizationFailure, other}; distinct by "
-        "(definition, operation, argument); non-trivial = >=2 noise entries or a Config field other than the default is involved")
+        "(definition, operation, argument); non-trivial = >=2 noise entries or a Config field other than the default is involved; "
+        "written-order stream (fixed inputs): two estimators whose process / sensor noise dicts are written in NON-alphabetical key order with a "
+        "different magnitude per entry (2 and 3 readings per sensor, 2 sensors, 2 controls): flatten -> inverse gives back the held noise, "
+        "inverse -> set_params -> flatten gives back the vector, both against the Lean model, and through fit with the minimiser as a parameter: "
+        "the objective at the starting point is the estimator's own score, a minimiser returning its starting point leaves the noise as held, "
+        "and a second fit starts from the vector the first fit's minimiser proposed")
 NOTE = ["flatten / inverse-flatten are private methods; they are called on deep copies to tie the Lean model to the code, while the property "
         "itself is judged on the public API (get_params, set_params, clone, fit)",
         "scipy.optimize.minimize is a parameter: whatever vector it proposes, the outcome must be a returned estimator satisfying the "
-        "postconditions or MinimizationFailure"]
+        "postconditions or MinimizationFailure",
+        "written-order stream: the minimiser is supplied by replacing the name formak.python.minimize for the duration of one fit call (a stand-in "
+        "that returns its starting point, or a fixed proposal); the oracle does not assume any layout of the vector, only that the estimator "
+        "reads back the magnitude it holds for each reading (dict equality ignores the order in which keys were written)"]
 PARTIAL = ["scipy's minimiser and scikit-learn's clone are outside the model"]
 
 
@@ -42,6 +50,159 @@ def params_json(p):
 def noises_json(process_noise, sensor_noises):
     return {"process": [[str(k), core.frac_str(F(v))] for k, v in process_noise.items()],
             "sensors": [[k, [[str(r), core.frac_str(F(v))] for r, v in rd.items()]] for k, rd in sensor_noises.items()]}
+
+
+def written_order_definitions():
+    """Fixed estimators whose noise maps are WRITTEN in an order other than the alphabetical one, a different magnitude per entry."""
+    px, pv, pu, pw, dts = sympy.symbols("px pv pu pw dt")
+    out = []
+    # one control; a two-reading sensor whose noise is written q-then-p (its model p-then-q) next to a single-reading sensor
+    d1 = gen.Definition(dts, [px, pv], [pu], [], {px: px + dts * pv, pv: pv + dts * pu},
+                        {"pos": {"x": px}, "both": {"p": px, "q": pv}})
+    out.append(("two-readings-written-q-p", d1, {"pu": F(3, 4)}, {"pos": {"x": F(1, 2)}, "both": {"q": F(2), "p": F(1, 4)}}))
+    # two controls written w-then-u; sensors written zeta-then-alpha; three readings written m, z, a and two written t, s
+    d2 = gen.Definition(dts, [px, pv], [pw, pu], [], {px: px + dts * pv + dts * pw, pv: pv + dts * pu},
+                        {"zeta": {"m": px + pv, "z": pv, "a": px}, "alpha": {"t": px - pv, "s": pv}})
+    out.append(("three-readings-two-sensors-two-controls", d2, {"pw": F(5, 8), "pu": F(9, 4)},
+                {"zeta": {"m": F(3), "z": F(1, 8), "a": F(7, 8)}, "alpha": {"t": F(5, 2), "s": F(3, 8)}}))
+    return out
+
+
+def written_order_stream(ctx, drv, pending):
+    """Deterministic (consumes nothing from ctx.rng). The estimator's noise maps are dicts, so the order in which the caller wrote
+    their keys is not part of the parameters: the magnitude held for a reading is the magnitude that comes back for THAT reading from
+    flatten -> inverse, from inverse -> flatten, and from a fit whose minimiser returns the point it was started from; the objective
+    at the starting point is the score of the estimator as it stands; and a second fit starts from what the first one proposed."""
+    from formak import python
+    from formak.exceptions import MinimizationFailure
+    from scipy.optimize import OptimizeResult
+
+    def held(p):
+        return ({str(k): float(v) for k, v in p["process_noise"].items()},
+                {k: {str(r): float(v) for r, v in rd.items()} for k, rd in p["sensor_noises"].items()})
+
+    for label, d, process, sensor in written_order_definitions():
+        Lc = sorted(s.name for s in d.control)
+        desc = {"stream": "written-order", "def": d.describe(), "label": label, "noise": {a: str(b) for a, b in process.items()},
+                "sensor_noise": {a: {r: str(v) for r, v in b.items()} for a, b in sensor.items()}}
+        want = ({a: float(b) for a, b in process.items()}, {a: {r: float(v) for r, v in b.items()} for a, b in sensor.items()})
+        nentries = len(process) + sum(len(rd) for rd in sensor.values())
+
+        def build():
+            with fk.quiet():
+                return C16.make_adapter(d, process, sensor, {}, None)
+        try:
+            ad = build()
+        except Exception as e:
+            ctx.fail(f"adapter-raises:{fk.exc_kind(e)}:written-order", repr(e)[:300], desc); continue
+        if held(ad.get_params()) != want:
+            ctx.fail("written-order:create", f"the estimator does not hold the noise it was created with: {held(ad.get_params())}, expected {want}", desc)
+            continue
+        # --- flatten (Lean correspondence) and flatten -> inverse gives back what is held
+        case = dict(desc, op="flatten-inverse")
+        ctx.case(case, True); ctx.count("op=written-order:flatten-inverse")
+        a3 = copy.deepcopy(ad)
+        try:
+            flat = [float(x) for x in a3._flatten_scoring_params()]
+            idx = drv.add({"op": "flatten", "controls": Lc, "noises": noises_json(a3.process_noise, a3.sensor_noises)})
+            pending.append(("flatten", idx, flat, case))
+            back = held(a3._inverse_flatten_scoring_params(list(flat)))
+            if len(flat) != nentries or sorted(flat) != sorted([*want[0].values()] + [v for rd in want[1].values() for v in rd.values()]):
+                ctx.fail("written-order:flatten", f"the flattened noise {flat} is not the {nentries} magnitudes the estimator holds", case)
+            if back != want:
+                ctx.fail("written-order:round-trip", f"flatten -> inverse gives {back} for an estimator holding {want}", case)
+        except Exception as e:
+            ctx.fail(f"flatten-raises:{fk.exc_kind(e)}:written-order", repr(e)[:300], case)
+        # --- inverse (Lean correspondence, including entries that get clamped) and inverse -> set -> flatten gives back the vector
+        vectors = [[F(k + 1, 8) for k in range(nentries)], [F(7 * (nentries - k), 4) for k in range(nentries)],
+                   [[F(-1, 4), F(1, 10 ** 9), F(3, 2), F(0), F(11, 8), F(1, 16), F(9, 2)][k % 7] for k in range(nentries)]]
+        for vi, vec in enumerate(vectors):
+            case = dict(desc, op="inverse-flatten", vector=[core.frac_str(x) for x in vec])
+            ctx.case(case, True); ctx.count("op=written-order:inverse-flatten")
+            a4 = copy.deepcopy(ad)
+            old = noises_json(a4.process_noise, a4.sensor_noises)
+            try:
+                got = a4._inverse_flatten_scoring_params([float(x) for x in vec])
+                idx = drv.add({"op": "inverse", "controls": Lc, "noises": old, "vector": [core.frac_str(x) for x in vec]})
+                pending.append(("inverse", idx, noises_json(got["process_noise"], got["sensor_noises"]), case))
+                if ({str(k) for k in got["process_noise"]}, {k: {str(r) for r in rd} for k, rd in got["sensor_noises"].items()}) != \
+                        (set(want[0]), {k: set(rd) for k, rd in want[1].items()}):
+                    ctx.fail("inverse-sensor-keys", "re-assembled noise does not name exactly the controls, sensors and readings", case)
+                if vi < 2:     # every entry well above the positive floor: nothing is clamped, so the vector itself must come back
+                    a4.set_params(process_noise=got["process_noise"], sensor_noises=got["sensor_noises"])
+                    again = [float(x) for x in a4._flatten_scoring_params()]
+                    if again != [float(x) for x in vec]:
+                        ctx.fail("written-order:inverse-flatten", f"inverse -> set_params -> flatten gives {again} for the vector {[float(x) for x in vec]}", case)
+            except Exception as e:
+                ctx.fail(f"inverse-raises:{fk.exc_kind(e)}:written-order", repr(e)[:300], case)
+        # --- fit, with the minimiser as a parameter (public API only)
+        width = len(d.control) + sum(len(rd) for rd in d.sensors.values())
+        X = np.array([[((7 * i + 3 * j) % 9 - 4) / 4.0 for j in range(width)] for i in range(6)], dtype=float)
+        case = dict(desc, op="fit-minimiser-returns-start", X=X.tolist())
+        ctx.case(case, True); ctx.count("op=written-order:fit-minimiser-returns-start")
+        try:
+            with fk.quiet():
+                own_score = float(build().score(X))
+        except Exception as e:
+            own_score = None; ctx.count(f"written-order:score_raises={fk.exc_kind(e)}")
+        seen = {}
+
+        def returns_start(fun, x0, *a, **kw):
+            seen["x0"] = [float(v) for v in x0]
+            seen["f0"] = float(fun(np.array(x0, dtype=float)))
+            return OptimizeResult(x=np.array(x0, dtype=float), success=True, fun=seen["f0"], message="returned the starting point")
+
+        proposal = [float(F(2 * k + 3, 8)) for k in range(nentries)]
+
+        def returns_proposal(fun, x0, *a, **kw):
+            seen["x0"] = [float(v) for v in x0]
+            return OptimizeResult(x=np.array(proposal, dtype=float), success=True, fun=float(fun(np.array(proposal, dtype=float))),
+                                  message="returned a fixed proposal")
+
+        def fit_with(minimiser, est):
+            original = python.minimize
+            python.minimize = minimiser
+            try:
+                with fk.quiet():
+                    return est.fit(X)
+            finally:
+                python.minimize = original
+        try:
+            keep = ad.get_params()
+            res = fit_with(returns_start, ad)
+            after = res.get_params()
+            if own_score is not None and math.isfinite(own_score) and math.isfinite(seen["f0"]) and \
+                    abs(seen["f0"] - own_score) > 1e-9 * max(1.0, abs(own_score)):
+                ctx.fail("written-order:fit-start-score", f"the objective fit hands to the minimiser is {seen['f0']!r} at the starting point, but the "
+                         f"estimator's own score on the same data is {own_score!r}", case)
+            elif own_score is None or not (math.isfinite(own_score) and math.isfinite(seen["f0"])):
+                ctx.count("written-order:score_undefined")
+            if held(after) != want:
+                ctx.fail("written-order:fit-start-returned", f"a fit whose minimiser returns its starting point changed the noise from {want} to {held(after)}", case)
+            if any(after[k] is not keep[k] for k in ("symbolic_model", "sensor_models", "calibration_map")) or \
+                    dataclasses.asdict(after["config"]) != dataclasses.asdict(keep["config"]):
+                ctx.fail("fit-changes-non-noise", "fit changed the model, the sensor models, the calibration or the configuration", case)
+            ctx.count("written-order:fit_outcome=returned")
+        except MinimizationFailure:
+            ctx.count("written-order:fit_outcome=MinimizationFailure")
+        except Exception as e:
+            ctx.fail(f"fit-raises:{fk.exc_kind(e)}", f"fit neither returns nor raises MinimizationFailure: {e!r}"[:300], case)
+        # --- a second fit starts from what the first fit's minimiser proposed
+        case = dict(desc, op="fit-then-fit", X=X.tolist(), proposal=proposal)
+        ctx.case(case, True); ctx.count("op=written-order:fit-then-fit")
+        try:
+            a7 = build()
+            fit_with(returns_proposal, a7)
+            first_start = list(seen["x0"])
+            fit_with(returns_start, a7)
+            if sorted(first_start) != sorted([*want[0].values()] + [v for rd in want[1].values() for v in rd.values()]):
+                ctx.fail("written-order:flatten", f"the minimiser is started from {first_start}, which is not the magnitudes the estimator holds", case)
+            if seen["x0"] != proposal:
+                ctx.fail("written-order:refit-start", f"the first fit's minimiser proposed {proposal}; the second fit starts from {seen['x0']}", case)
+        except MinimizationFailure:
+            ctx.count("written-order:fit_outcome=MinimizationFailure")
+        except Exception as e:
+            ctx.fail(f"fit-raises:{fk.exc_kind(e)}", f"fit neither returns nor raises MinimizationFailure: {e!r}"[:300], case)
 
 
 def run(ctx):
@@ -275,6 +436,7 @@ def run(ctx):
             sn = after["sensor_noises"]
             if {k: sorted(map(str, rd)) for k, rd in sn.items()} != sens_shape or any(not math.isfinite(v) for rd in sn.values() for v in rd.values()):
                 ctx.fail("fit-sensor-noise", f"fitted sensor noise {sn} does not name exactly the sensors/readings with finite magnitudes", case)
+    written_order_stream(ctx, drv, pending)
     ans = drv.run()
     for kind, idx, got, info in pending:
         a = ans[idx]
